@@ -547,7 +547,7 @@ def create_2d_fermi_hubbard_circuit(
 
     def chemical_potential_term() -> None:
         """Add the time evolution of the chemical potential term."""
-        theta = -mu * dt / (2 * n)
+        theta = mu * dt / (2 * n)
         for j in range(num_sites):
             q_up = lookup_qiskit_ordering(j, "↑")
             q_down = lookup_qiskit_ordering(j, "↓")
@@ -564,7 +564,7 @@ def create_2d_fermi_hubbard_circuit(
 
     def kinetic_hopping_term() -> None:
         """Add the time evolution of the kinetic hopping term."""
-        alpha = t * dt / n
+        alpha = -t * dt / n
 
         def horizontal_odd() -> None:
             for y in range(Ly):
